@@ -562,6 +562,7 @@ def plan(tier, seed):
   sig_batches = [['healthy'], ['biased1', 'biased2', 'biased3'],
                  ['biased1', 'healthy', 'biased2', 'sameissuer', 'biased3'],
                  ['weakissuer', 'healthy'], ['unknowncurve', 'biased1', 'biased2', 'biased3'],
+                 ['biased1', 'biased2', 'biased3', 'healthy'],  # weak curve first, clean curve last
                  ['sameissuer', 'weakissuer', 'biased3', 'biased2', 'biased1']]
   for b in sig_batches:
     for v in (['fresh', 'positive-low', 'negative-high', 'weak-no-entry', 'other-version']
@@ -569,7 +570,7 @@ def plan(tier, seed):
       T.append(Task('ecdsa-bookkeeping', 'search', {'family': 'ecdsa', 'names': b, 'variant': v,
                                                     'max_states': 200},
                     bound='7 signatures (healthy, 3 biased of one issuer, healthy of the same '
-                    'issuer, weak issuer key, unknown curve) in 6 batches x 5 operations incl. '
+                    'issuer, weak issuer key, unknown curve) in 7 batches x 5 operations incl. '
                     'CheckAllECDSASigs', weight=2e9))
   T.append(Task('tlc-model-conformance', 'tlc_crosscheck', {},
                 bound='TLA+ lattice model of TestInfo (tla/TestInfo.tla): TLC to fixpoint, every '
